@@ -53,7 +53,7 @@ class StubLearner:
         return len(self.data)
 
     def loss(self, real=True):
-        return 1.0 / (1 + len(self.data))
+        return 1.0 / (1 + len(self.data) + (0 if real else len(self.pending_points)))
 
     def new(self):
         return StubLearner(self.short_every)
@@ -87,20 +87,44 @@ def gen_cfg(rng, faults, thorough=False):
         "pcancellable": rng.choice([0.0, 0.5, 1.0]),
         "seed": rng.randrange(1 << 30),
     }
+    cfg["goal_api"] = rng.choice(["callable", "npoints", "loss"]) if kind in ("stub", "l1d") else "callable"
+    cfg["loss_goal"] = rng.choice([0.5, 0.25, 0.15, 0.08])
     return cfg
 
 
 def goal_fn(cfg):
+    """the goal the runner is given.  For `goal_api` = "loss"/"npoints" the decision is delegated to the goal
+    that adaptive.runner._goal / auto_goal construct from `loss_goal=` / `npoints_goal=`, and compared — at every
+    evaluation, i.e. also while points are pending — with the documented meaning (loss() <= goal, npoints >= goal)."""
+    box = {}
+
     def goal(learner, state):
         if cfg["kind"] == "seq" and learner.done():
             return True
-        return learner.npoints >= cfg["target"] or state["iters"] >= cfg["maxiter"]
+        api = cfg.get("goal_api", "callable")
+        if api == "callable":
+            met = learner.npoints >= cfg["target"]
+        else:
+            if "ag" not in box:
+                from adaptive import runner as ar
+                if api == "npoints":
+                    box["ag"] = ar._goal(learner, None, None, cfg["target"], None, None, True)
+                else:
+                    box["ag"] = ar._goal(learner, None, cfg["loss_goal"], None, None, None, True)
+            met = bool(box["ag"](learner))
+            want = (learner.npoints >= cfg["target"]) if api == "npoints" else (learner.loss() <= cfg["loss_goal"])
+            if met != bool(want):
+                cfg.setdefault("_goal_mismatch", []).append(
+                    f"goal built from {api}_goal answered {met} while the documented condition is {bool(want)} "
+                    f"(npoints={learner.npoints}, loss()={learner.loss()!r}, loss(real=False)={learner.loss(real=False)!r}, "
+                    f"pending={len(learner.pending_points)})")
+        return met or state["iters"] >= cfg["maxiter"]
     return goal
 
 
 def execute(cfg):
     c = dict(cfg)
-    c["goal"] = goal_fn(cfg)
+    c["goal"] = goal_fn(c)
     rng = random.Random(cfg["seed"])
     mk = mk_learner(cfg["kind"], cfg["param"])
     sched = None
@@ -185,6 +209,8 @@ def oracle_c05(res):
     l = res["learner"]
     if hasattr(l, "pending_points") and len(l.pending_points) != 0:
         return ("exit_clean", f"learner still has pending points {sorted(l.pending_points)[:5]} at exit")
+    if cfg.get("_goal_mismatch"):
+        return ("goal_semantics", cfg["_goal_mismatch"][0])
     goals = [c[1] for c in rec.flat if c[0] == "goal"]
     if res["status"] == "finished" and not (goals and goals[-1]):
         return ("exit_status", "status finished but the last goal evaluation was false")
